@@ -48,6 +48,64 @@ Theorem C04_extent_fixed_refuted :
 Proof. exact extent_fixed_refuted. Qed.
 Print Assumptions C04_extent_fixed_refuted.
 
+(** util.parse_region: a region is accepted exactly when 0 <= start <= end <= length (open ends
+    default to 0 and to the chromosome length), and is then handed on unchanged *)
+Theorem C04_parse_region_bounds : forall sizes c s e,
+  parse_region sizes c s e =
+  match nth_error sizes c with
+  | None => None
+  | Some L => if (0 <=? dflt 0 s) && (dflt 0 s <=? dflt L e) && (dflt L e <=? L)
+              then Some (c, dflt 0 s, dflt L e) else None
+  end.
+Proof. exact parse_region_spec. Qed.
+Print Assumptions C04_parse_region_bounds.
+
+(** whole chromosome / bare name: exactly the chromosome's rows *)
+Theorem C04_extent_whole_chrom : forall blocks i blk,
+  ValidBlocks blocks -> nth_error blocks i = Some blk ->
+  extent blocks i None None = Some (chrom_offset blocks i, chrom_offset blocks (S i)).
+Proof. exact extent_whole_chrom. Qed.
+Print Assumptions C04_extent_whole_chrom.
+
+(** Cooler.bins().fetch returns exactly the overlapping bins of the chromosome, in table order *)
+Theorem C04_bins_fetch_overlap : forall blocks i blk s e,
+  ValidBlocks blocks -> nth_error blocks i = Some blk ->
+  0 <= s < e -> e <= chrom_len blk ->
+  bins_fetch blocks i (Some s) (Some e) = Some (filter (overlaps_b i s e) (table blocks)).
+Proof. exact bins_fetch_overlap. Qed.
+Print Assumptions C04_bins_fetch_overlap.
+
+(** Cooler.pixels().fetch: the row range between the two bin1 offsets of an extent holds exactly
+    the pixels whose bin1_id lies in the extent *)
+Theorem C04_pixels_fetch_rows : forall px lo hi,
+  Sorted.StronglySorted Z.le (map fst px) -> lo <= hi ->
+  pixels_fetch_rows px lo hi = filter (fun p => (lo <=? fst p) && (fst p <? hi)) px.
+Proof. exact pixels_fetch_rows_spec. Qed.
+Print Assumptions C04_pixels_fetch_rows.
+
+(** util.bedslice / GenomeSegmentation.fetch: exactly the overlapping bins (for an empty range the
+    bin strictly containing the position, if any) *)
+Theorem C04_bedslice_overlap : forall c blk s e,
+  Tiled c 0 blk -> 0 <= s <= e -> e <= chrom_len blk ->
+  bedslice blk (chrom_len blk) s e = filter (fun x => (bstart x <? e) && (s <? bend x)) blk.
+Proof. exact bedslice_overlap. Qed.
+Print Assumptions C04_bedslice_overlap.
+
+Theorem C04_bedslice_eq_extent : forall blocks i blk s e,
+  ValidBlocks blocks -> nth_error blocks i = Some blk ->
+  0 <= s < e -> e <= chrom_len blk ->
+  Some (bedslice blk (chrom_len blk) s e) = bins_fetch blocks i (Some s) (Some e).
+Proof. exact bedslice_eq_extent. Qed.
+Print Assumptions C04_bedslice_eq_extent.
+
+(** the one corner where the two paths differ (both answers satisfy C04_extent_empty) *)
+Theorem C04_extent_paths_differ_at_end :
+  let blocks := [[(0,0,10);(0,10,20)]; [(1,0,10)]] in
+  get_binsize (table blocks) = Some 10 /\
+  region_to_extent_fixed blocks 0 20 20 10 = (2, 2) /\ region_to_extent_var blocks 0 20 20 = (1, 2).
+Proof. exact extent_paths_differ_at_end. Qed.
+Print Assumptions C04_extent_paths_differ_at_end.
+
 (** non-vacuity *)
 Example ex_C04_variable :
   let blocks := [[(0,0,3);(0,3,6);(0,6,8)]; [(1,0,4);(1,4,8)]; [(2,0,5)]] in
